@@ -289,6 +289,105 @@ def extractor_rules(ctx):
                     r.fail(f.qualname, f"{dim}:vm", f.file, f.lineno, "__Result_in_Strain_or_Stress_field", f"dim {dim}: the expression under the square root is {got!r}, expected 3/2 s:s = {want!r}")
 
 
+def field_e_rule(ctx):
+    """R16.7: the per-element reduction extracts the named result at every Gauss point of every group and only then
+    averages over the Gauss points (the equivalent stress of the mean is not the mean of the equivalent stress)."""
+    repo = ctx.repo
+    r = ctx.rule("R16.7", "per-element strain/stress results: the extractor receives the field at every Gauss point of each group, its output is averaged over the Gauss points once, groups are concatenated in list order", min_instances=2)
+    mod = repo.module(MU)
+    f = mod.functions["Result_strain_or_stress_field_e"]
+    nPg = (2, 3)
+    fields = {}
+    seen = []
+
+    def field_of(g):
+        k = g.tag
+        fields[k] = XFe((1, nPg[k], 3), [Poly.var(f"s{k}_{p}_{c}") for p in range(nPg[k]) for c in range(3)])
+        return fields[k]
+
+    def hook(fn, args, kwargs):
+        if isinstance(fn, FuncInfo) and fn.name == "__Result_in_Strain_or_Stress_field":
+            seen.append(args[0])
+            k = len(seen) - 1
+            a = XArray.from_nested(args[0])
+            return XArray((1, a.shape[1]), [Poly.var(f"r{k}_{p}") for p in range(a.shape[1])])
+        if isinstance(fn, _NpAttr) and fn.path == "asarray" and args and isinstance(args[0], XArray):
+            return XArray(args[0].shape, args[0].data)
+        from ..femchain import fe_hook_full
+
+        return fe_hook_full(fn, args, kwargs)
+
+    I = Interp(repo)
+    I.call_hook = hook
+    groups = [SimpleNamespace(tag=0), SimpleNamespace(tag=1)]
+    r.instance(fn=f.qualname)
+    out = XArray.from_nested(I.call_function(f, [field_of, groups, "vm", MQ.sqrt(2)]))
+    bad = None
+    if len(seen) != 2:
+        bad = f"the extractor is called {len(seen)} times for 2 groups"
+    else:
+        for k in (0, 1):
+            a = XArray.from_nested(seen[k])
+            want = fields[k]
+            if a.shape != want.shape or any(not is_zero(x - y) for x, y in zip(a.data, want.data)):
+                bad = f"group {k}: the extractor receives an array of shape {a.shape} that is not the (Ne, nPg={nPg[k]}, n) field returned for the group (e.g. averaged over the Gauss points first: a nonlinear result such as the von Mises norm is then that of the mean tensor)"
+    if bad:
+        r.fail(f.qualname, "per-gauss-point", f.file, f.lineno, "Result_strain_or_stress_field_e", bad)
+    else:
+        r.ok("extractor applied to the full (Ne, nPg, n) field of each group")
+    r.instance(fn=f.qualname)
+    if len(seen) == 2 and out.shape == (2,):
+        want = [sum((Poly.var(f"r{k}_{p}") for p in range(nPg[k])), Poly()) / nPg[k] for k in (0, 1)]
+        if all(is_zero(out.data[k] - want[k]) for k in (0, 1)):
+            r.ok("result_e = mean over Gauss points of the extracted values, groups in list order")
+        else:
+            r.fail(f.qualname, "mean", f.file, f.lineno, "Result_strain_or_stress_field_e", f"the per-element value is {out.data[0]!r}, expected the Gauss-point mean {want[0]!r} (groups in list order)")
+    elif not bad:
+        r.fail(f.qualname, "mean", f.file, f.lineno, "Result_strain_or_stress_field_e", f"result has shape {out.shape}, expected one value per element (2,)")
+
+
+def reaction_rule(ctx):
+    """R16.8: Calc_Reaction = K u (+ C v for the parabolic scheme, + C v + M a for every scheme the repository classes as hyperbolic)."""
+    repo = ctx.repo
+    r = ctx.rule("R16.8", "reactions: K[dofs] u, plus C[dofs] v for the parabolic scheme, plus C[dofs] v + M[dofs] a for every member of AlgoType.Get_Hyperbolic_Types(); every AlgoType member is classified", min_instances=6)
+    from ..xeval import EnumVal
+
+    simu = repo.cls(f"{SIM}._simu._Simu")
+    f = simu.methods["Calc_Reaction"]
+    algo_cls = repo.cls("EasyFEA.Simulations.Solvers.AlgoType")
+    members = repo.enum_members(algo_cls.qualname)
+    I0 = Interp(repo)
+    hyp = {e.name for e in I0.call_function(algo_cls.methods["Get_Hyperbolic_Types"], [])}
+    n = 2
+    mat = lambda nm: XArray((n, n), [Poly.var(f"{nm}{i}{j}") for i in range(n) for j in range(n)])
+    vec = lambda nm: XArray((n,), [Poly.var(f"{nm}{i}") for i in range(n)])
+    K, C, M = mat("K"), mat("C"), mat("M")
+    u, v, a = vec("u"), vec("v"), vec("a")
+    for name in sorted(members):
+        r.instance(fn=f.qualname)
+        obj = XObj(simu, dict(
+            isNonLinear=False, problemType=Opaque("pt"), algo=EnumVal(algo_cls, name, members[name]),
+            Get_dofs=lambda pt=None: XArray((n,), list(range(n))), Get_K_C_M_F=lambda pt=None: (K, C, M, Opaque("F")),
+            _Get_u_n=lambda pt=None: u, _Get_v_n=lambda pt=None: v, _Get_a_n=lambda pt=None: a,
+        ))
+        I = Interp(repo, extra_builtins={"MPI_SIZE": 1})
+        out = XArray.from_nested(I.call_function(f, [], self_obj=obj))
+        cls = "hyperbolic" if name in hyp else ("parabolic" if name == "parabolic" else "static")
+        bad = None
+        for i in range(n):
+            want = sum((K[i, j] * u[j] for j in range(n)), Poly())
+            if cls in ("parabolic", "hyperbolic"):
+                want = want + sum((C[i, j] * v[j] for j in range(n)), Poly())
+            if cls == "hyperbolic":
+                want = want + sum((M[i, j] * a[j] for j in range(n)), Poly())
+            if not is_zero(out.data[i] - want):
+                bad = f"row {i}: {out.data[i]!r}"
+        if bad:
+            r.fail(f.qualname, f"algo:{name}", f.file, f.lineno, "_Simu.Calc_Reaction", f"algo {name} (classified {cls} by AlgoType.Get_Hyperbolic_Types()): the reaction is not K u{' + C v' if cls != 'static' else ''}{' + M a' if cls == 'hyperbolic' else ''}: {bad}")
+        else:
+            r.ok(f"{name}: {cls} terms")
+
+
 def node_values_rule(ctx):
     repo = ctx.repo
     r = ctx.rule("R16.5", "element->node conversion divides connect_n_e @ values by the row sums of the same matrix (constants preserved)", min_instances=1)
@@ -351,5 +450,7 @@ def run(ctx):
     )
     dispatch_rules(ctx)
     extractor_rules(ctx)
+    field_e_rule(ctx)
+    reaction_rule(ctx)
     node_values_rule(ctx)
     energy_rule(ctx)
